@@ -440,6 +440,24 @@ Section Confirm.
     | p :: r => trace r (step st p)
     end.
 
+  (* ---- genesis export + import of the module (x/crosschain/keeper/genesis.go) ----
+     ExportGenesis lists the confirms of every exported oracle set and batch (outgoing bridge calls are not
+     exported, so bridge-call confirms vanish with them); InitGenesis stores each listed confirm again under
+     every oracle RECORD whose BridgerAddress equals the confirm's BridgerAddress, with the key built from the
+     confirm's own token/nonce.  A confirm whose bridger matches no record (its oracle ran MsgEditBridger
+     afterwards) is dropped. *)
+  Definition resolve (orcs : list (Z * oracle)) (b : Z) : list Z :=
+    map fst (filter (fun p => o_bridger (snd p) =? b) orcs).
+  Definition exported (st : cstate) : list (ckey * cmsg) :=
+    filter (fun e => negb (kind_eqb (fst (fst (fst (fst e)))) KCall) &&
+                     match assoc okey_eqb (fst (fst e)) (st_objs st) with Some _ => true | None => false end)
+           (st_conf st).
+  Definition import_conf (st : cstate) : list (ckey * cmsg) :=
+    fold_left (fun acc e =>
+                 fold_left (fun acc oa => kv_set ckey_eqb (msg_okey (snd e), oa) (snd e) acc)
+                           (resolve (st_oracles st) (m_bridger (snd e))) acc)
+              (exported st) [].
+
   (* the acceptance rule, as a proposition *)
   Definition accept_rule (st : cstate) (m : cmsg) (k : ckey) : Prop :=
     exists o pre sig orc,
